@@ -46,7 +46,8 @@ class ScoreQueue(SystemWideDevice):
             self.warning_log("Trying to use score_queue without an active game or player")
             return
         self._score_queue_empty.clear()
-        self._score_queue.put_nowait(value)
+        # remember who earned it: the entry may be worked off after the turn changed
+        self._score_queue.put_nowait((self.machine.game.player, value))
 
     def stop_device(self):
         """Stop queue."""
@@ -56,14 +57,14 @@ class ScoreQueue(SystemWideDevice):
 
     async def _handle_score_queue(self):
         while True:
-            score = await self._score_queue.get()
+            player, score = await self._score_queue.get()
             self.debug_log("Scoring %s", score)
             while score > 0:
                 # get the position of the highest digit
                 digit_pos = int(math.floor(math.log10(score)))
                 digit_score = int(math.pow(10, digit_pos))
                 # score this amount
-                self.machine.game.player[self.name] += digit_score
+                player[self.name] += digit_score
                 # reduce the remaining amount
                 score -= digit_score
                 self.debug_log("Scoring %s on digit %s. Remaining: %s", digit_score, digit_pos, score)
